@@ -76,6 +76,7 @@ type vmReq struct {
 	attempts    int
 	status      int
 	escaped     bool // a panic left the whole stack
+	reqChanged  bool // net/http adapters: the caller's *http.Request was modified in place by the middleware
 	outer       godi.Scope
 	closesAtEnd map[godi.Scope]int32 // Close count of each created scope's disposable when the request had ended
 	bar         *vmBarrier
@@ -685,6 +686,11 @@ func (v *vmRun) monitors(r *vmReq, evs []string, fresh bool, batch []*vmReq) {
 	}
 	if !fresh {
 		bad("the request got a scope that an earlier request already had")
+	}
+	if r.reqChanged {
+		// http.Handler: "handlers should not modify the provided Request" - a caller that serves the same request again
+		// (a fallback, a retry wrapper) would hand the next pass the context of a scope that is already closed
+		bad("the middleware modified the caller's request in place: after ServeHTTP its context is not the one the caller set (it is the closed scope's)")
 	}
 	for _, o := range batch {
 		if o != r && len(o.created) > 0 && len(r.created) > 0 && o.created[0] == r.created[0] {
